@@ -170,7 +170,6 @@ static void build_catalogue(int groups)
 		E("te:final-not-chunked|gzip", "Transfer-Encoding: gzip\r\n"),
 		E("te:final-not-chunked|two-fields", "Transfer-Encoding: chunked\r\nTransfer-Encoding: gzip\r\n"),
 		E("te:chunked-twice", "Transfer-Encoding: chunked, chunked\r\n"),
-		E("te:list-ending-chunked|empty-element", "Transfer-Encoding: , chunked\r\n"),
 		E("te:chunked+cl", "Transfer-Encoding: chunked\r\nContent-Length: 3\r\n"),
 		E("te:cl+chunked", "Content-Length: 3\r\nTransfer-Encoding: chunked\r\n"),
 		E("te:list-ending-chunked|gzip+cl", "Transfer-Encoding: gzip, chunked\r\nContent-Length: 3\r\n"),
@@ -483,8 +482,8 @@ static void oracle_b(const struct stream *st, struct srv *s)
 	struct h1_result ref;
 	int i, k = s->nreq;
 	h1_parse_stream(st->b, st->n, &o, &ref);
-	mc_observe("%s: ref msgs=%d tail=%s%s%s closed=%d | impl %s", st->tag, ref.nmsgs, h1_status_name(ref.tail),
-	    ref.reason ? ":" : "", ref.reason ? ref.reason : "", ref.closed, "");
+	mc_observe("%s: ref msgs=%d tail=%s%s%s closed=%d | impl ", st->tag, ref.nmsgs, h1_status_name(ref.tail),
+	    ref.reason ? ":" : "", ref.reason ? ref.reason : "", ref.closed);
 	for (i = 0; i < ref.nmsgs; i++) {
 		const struct h1_msg *m = &ref.msgs[i];
 		unsigned lat = m->lat;
